@@ -1,6 +1,6 @@
 //! C04 — reset() returns every indicator to a state indistinguishable from a fresh one.
 
-use crate::adapter::{Ind, Kind, ALL_KINDS};
+use crate::adapter::{Ind, Kind, RawBar, ALL_KINDS};
 use crate::fw::*;
 use crate::gen::*;
 use crate::hist::*;
@@ -198,6 +198,15 @@ fn strategy(cap: usize, long: bool) -> BoxedStrategy<Case> {
                 let f = continuation[0].clone();
                 for c in continuation.iter_mut() {
                     *c = f.clone();
+                }
+            } else if flat == 2 || flat == 3 {
+                // strictly rising / falling from the first input on (run-length shortcuts compare the first input
+                // after the reset with whatever "previous value" the reset left behind)
+                let b0 = continuation[0].bar;
+                let dir = if flat == 2 { 1.0 } else { -1.0 };
+                for (j, c) in continuation.iter_mut().enumerate() {
+                    let f = 1.0 + dir * 0.004 * j as f64 / (1.0 + 0.004 * j as f64 * (dir < 0.0) as u8 as f64);
+                    c.bar = RawBar { o: b0.o * f, h: b0.h * f, l: b0.l * f, c: b0.c * f, v: b0.v };
                 }
             } else if flat == 1 {
                 let k = continuation.len() / 3;
